@@ -2723,6 +2723,14 @@ static void state_read_content(struct snapraid_state* state, const char* path, S
 				/* LCOV_EXCL_STOP */
 			}
 
+			if (v_split_mac > SPLIT_MAX) {
+				/* LCOV_EXCL_START */
+				decoding_error(path, f);
+				log_fatal("Invalid parity split number '%u' in the content file!\n", v_split_mac);
+				exit(EXIT_FAILURE);
+				/* LCOV_EXCL_STOP */
+			}
+
 			/* auto configure if configuration is missing */
 			if (state->no_conf) {
 				if (v_level >= state->level)
